@@ -167,6 +167,158 @@ def rand_script(rnd, family):
 
 
 # ---------------------------------------------------------------------------------------------------------------------
+# "huge" family: intervals around the 32-bit boundaries of the millisecond arithmetic (TLC integers are 32-bit, the loop's
+# clock is 64-bit).  Scripts are written in model units; the driver applies a duration h*M + r as h*H + r real milliseconds
+# (see driver.cpp).  All instants stay within 1000 of a multiple of M, so sums and order are preserved by the relabelling.
+# ---------------------------------------------------------------------------------------------------------------------
+HUGE_M = 1000000
+HUGE_H = [2 ** 31 - 1, 2 ** 31, 2 ** 31 + 1, 2 ** 32 - 1, 2 ** 32, 2 ** 32 + 5, 2592000000,          # 30 days
+          2 ** 33 + 7, 3 * 2 ** 32 + 2 ** 31 + 9, 2 ** 34 + 1]
+
+
+def huge_script(rnd, H, kind, mode_a, mix, with_b):
+    """slot 1: huge timer A; slot 2: huge timer B (optional); slot 3: small one-shot; slot 4: small persistent (mix 2 only,
+    removed between passes before the clock makes a huge step, never touched by callbacks: it would owe ~H periods).
+    Passes at small times (A must stay silent, also right after the last small timer was popped), then one ms before, at and
+    after A's deadlines, several periods late, after removal, after re-enable from its own callback."""
+    M = HUGE_M
+    top, cb, now = [], {}, [0]
+    ev = kind == "event"
+
+    def arm(i, d, m):
+        if ev:
+            top.extend([{"o": "create", "i": i}, {"o": "init", "i": i, "d": d, "m": m}, {"o": "enable", "i": i}])
+        else:
+            top.append({"o": "every" if m == "persist" else "after", "i": i, "d": d})
+
+    def remove(i):
+        top.append({"o": rnd.choice(["disable", "destroy"]) if ev else "cancel", "i": i})
+
+    def adv(n):
+        if n > 0:
+            top.append({"o": "adv", "n": n})
+            now[0] += n
+
+    def ps():
+        top.append({"o": "pass"})
+
+    d_a = rnd.choice([1, 1, 2]) * M + rnd.choice([0, 0, 1, 2, 7])
+    d_b = rnd.choice([1, 2, 3]) * M + rnd.choice([0, 1, 5])
+    d3, d4 = rnd.randint(1, 4), rnd.randint(1, 3)
+    if rnd.random() < 0.3:
+        adv(rnd.randint(1, 3))
+    groups = [1] + ([2] if with_b else []) + ([3] if mix >= 1 else []) + ([4] if mix >= 2 else [])
+    rnd.shuffle(groups)
+    arm_a = 0
+    for g in groups:
+        if g == 1:
+            arm(1, d_a, mode_a)
+            arm_a = now[0]
+        elif g == 2:
+            arm(2, d_b, rnd.choice(["oneshot", "persist"]))
+        elif g == 3:
+            arm(3, d3, "oneshot")
+        else:
+            arm(4, d4, "persist")
+        if rnd.random() < 0.2:
+            adv(1)
+    ps()                                             # a pass at once: nothing is due
+    for _ in range(rnd.randint(2, 4)):               # small times: only the small timers may fire
+        adv(rnd.randint(1, 3))
+        ps()
+    if mix >= 2:
+        remove(4)
+        ps()
+        adv(rnd.randint(1, 2))
+        ps()
+    if mix >= 1 and rnd.random() < 0.6:              # the small one-shot once more: when it is popped a huge timer is the heap top
+        top.append({"o": "enable", "i": 3} if ev else {"o": "after", "i": 3, "d": d3})
+        adv(d3 + rnd.randint(0, 2))
+        ps()
+        if with_b and rnd.random() < 0.3:
+            cb["3:2"] = [{"o": "destroy" if ev else "cancel", "i": 2}]
+    dl = arm_a + d_a
+    style = rnd.choice(["before", "before", "at", "after"])
+    if style == "before":
+        adv(dl - now[0] - 1)
+        ps()
+        adv(1)
+    elif style == "at":
+        adv(dl - now[0])
+    else:
+        adv(dl - now[0] + rnd.randint(1, 5))
+    ps()
+    if mode_a == "persist":
+        if ev and rnd.random() < 0.3:
+            cb["1:2"] = [{"o": "disable", "i": 1}, {"o": "enable", "i": 1}]      # fresh full (huge) interval from inside the callback
+        dl += d_a
+        adv(dl - now[0] - 1)
+        ps()
+        adv(1)
+        ps()
+        adv(2 * d_a + 1)                             # two periods late
+        ps()
+        remove(1)
+        adv(d_a)
+        ps()
+    else:
+        if ev and rnd.random() < 0.6:
+            cb["1:1"] = [{"o": "enable", "i": 1}]    # one-shot re-armed from its own callback
+        elif not ev and rnd.random() < 0.6:
+            if mix < 2:
+                cb["1:1"] = [{"o": "after", "i": 4, "d": d_a}]      # a new huge one-shot from inside the callback (slot 4 is free)
+        adv(rnd.randint(1, 3))
+        ps()
+        adv(d_a - 4)
+        ps()
+        adv(1)
+        ps()
+        adv(5)
+        ps()
+    ps()
+    sc = {"kind": kind, "n": 4, "base": rnd.choice([0, 1, 1000, 2 ** 32 - 3, 2 ** 40]), "pre": rnd.random() < 0.3, "M": M, "H": str(H),
+          "top": top, "cb": cb}
+    huge_check(sc)
+    return sc
+
+
+def huge_check(sc):
+    """generator self-check: no small persistent timer can be armed while the clock makes a huge step (it would owe ~H periods),
+    and every instant stays within 1000 of a multiple of M (soundness of the relabelling)."""
+    M, small, now = sc["M"], set(), 0
+    for ops in sc["cb"].values():
+        for op in ops:
+            if op["o"] in ("init", "every") and op.get("m", "persist") == "persist" and op["d"] < M // 2:
+                raise vlib.Infra("huge script: callback arms a small persistent timer")
+            if op.get("i") == 4 and sc["kind"] == "event":
+                raise vlib.Infra("huge script: callback touches the small persistent slot")
+    for op in sc["top"]:
+        o = op["o"]
+        if o in ("init", "every") and op.get("m", "persist") == "persist" and op["d"] < M // 2:
+            small.add(op["i"])
+        elif o in ("destroy", "cancel", "disable") or (o in ("init", "after") and op["i"] in small):
+            small.discard(op["i"])
+        elif o == "adv":
+            now += op["n"]
+            if op["n"] >= M // 2 and small:
+                raise vlib.Infra("huge script: huge clock step while a small persistent timer may be armed")
+            r = (now + M // 2) % M - M // 2
+            if abs(r) > 1000:
+                raise vlib.Infra("huge script: instant %d too far from a multiple of M" % now)
+
+
+def huge_scripts(rnd, reps):
+    out = []
+    for _ in range(reps):
+        for H in HUGE_H:
+            for kind in ("event", "pool"):
+                for mode_a in ("oneshot", "persist"):
+                    for mix in (0, 1, 2):
+                        out.append(huge_script(rnd, H, kind, mode_a, mix, rnd.random() < 0.4))
+    return out
+
+
+# ---------------------------------------------------------------------------------------------------------------------
 def run_scripts(ctx, exe, scripts, tag, engines, cfg, counted_as):
     sp = ctx.tmp(tag + ".jsonl")
     with open(sp, "w") as f:
@@ -184,7 +336,7 @@ def run_scripts(ctx, exe, scripts, tag, engines, cfg, counted_as):
 def script_from_trace(lines):
     """--replay: rebuild the script from a saved (rejected) execution."""
     ev = [json.loads(x) for x in lines if x.strip().startswith("{")]
-    kind, n, engine, base, pre = "event", 3, "epoll", 0, False
+    kind, n, engine, base, pre, hm, hh = "event", 3, "epoll", 0, False, 0, "0"
     top, cb, key = [], {}, None
     for e in ev:
         t = e["e"]
@@ -193,6 +345,7 @@ def script_from_trace(lines):
         if t == "info":
             kind, n, engine = e.get("kind", kind), e.get("n", n), e.get("engine", engine)
             base, pre = int(e.get("base", "0")), e.get("pre", False)
+            hm, hh = e.get("M", 0), e.get("H", "0")
         elif t == "fire":
             key = "%d:%d" % (e["i"], e["k"])
         elif t == "pass":
@@ -206,7 +359,10 @@ def script_from_trace(lines):
                     op[f] = e[f]
             (cb.setdefault(key, []) if e.get("cb", 0) else top).append(op)
     top.append({"o": "pass"})
-    return {"kind": kind, "n": max(n, 1), "base": base, "pre": pre, "top": top, "cb": cb}, engine
+    sc = {"kind": kind, "n": max(n, 1), "base": base, "pre": pre, "top": top, "cb": cb}
+    if hm:
+        sc["M"], sc["H"] = hm, hh
+    return sc, engine
 
 
 def fork(ctx, name):
@@ -293,7 +449,12 @@ def run(ctx):
         ok, tr = run_scripts(c, exe, rs, "random", both, "Trace_Timers.cfg", "trace")
         return [json.loads(x) for x in vlib.read_lines(tr, 1, 14)]
 
-    jobs = [("mc", j_mc), ("focus", j_focus), ("mc2", j_mc2), ("pool", j_pool), ("random", j_random), ("deep", j_deep)]
+    def j_huge(c):
+        hs = huge_scripts(random.Random(ctx.seed * 7919 + 1), 1 if quick else 12)
+        run_scripts(c, exe, hs, "huge", "both", "Trace_small.cfg", "trace")
+        return hs
+
+    jobs = [("mc", j_mc), ("focus", j_focus), ("mc2", j_mc2), ("pool", j_pool), ("random", j_random), ("deep", j_deep), ("huge", j_huge)]
     only = os.environ.get("C02_JOBS")          # development knob: run a subset of the jobs (evidence is then partial)
     if only:
         jobs = [(n, f if n in only.split(",") else (lambda c: None)) for n, f in jobs]
@@ -314,7 +475,7 @@ def run(ctx):
     if err:
         ctx.notes.append("an infrastructure error in one job was not reported because violations were found: %s" % str(err)[:300])
     ctx.exhaustive = True
-    _, focus, _, pool, first, deep = res
+    _, focus, _, pool, first, deep, huge = res
     if only:
         ctx.notes.append("partial run: C02_JOBS=" + only)
         return
@@ -324,6 +485,9 @@ def run(ctx):
     ctx.sample({"kind": "model history turned into a script and executed on the real loop", "script": focus[len(focus) // 2]})
     ctx.sample({"kind": "TimerPool script from the model", "script": pool[len(pool) // 2]})
     ctx.sample({"kind": "recorded trace (first events)", "events": first})
+    ctx.sample({"kind": "huge-interval script (model units; the driver applies h*M+r as h*H+r ms)", "script": huge[6 * 12 + 1]})
+    ctx.notes.append("huge family: %d scripts x 2 engines, unit H in %s ms, intervals H, 2H, 3H (+0..7 ms), alone and mixed with small "
+                     "timers, passes at small times, 1 ms before / at / after the deadlines, two periods late" % (len(huge), HUGE_H))
     ctx.assumptions = [
         "intervals are >= 1 ms (the statement's d >= 1); interval 0 is not generated",
         "a TimerEvent is not deleted from inside its own callback (the destructor asserts cb_level_ == 0); a TimerPool timer "
@@ -331,6 +495,9 @@ def run(ctx):
         "one loop iteration is one pass: the in-loop driver keeps a runNext task pending, so the loop never sleeps; the virtual "
         "clock moves only when the script says so (between passes and inside callbacks)",
         "timers with equal deadlines may fire in any order; whether a pass latches the clock once or re-reads it is left open",
+        "huge family: a duration h*M+r of the script (M = 10^6 model units) is applied to the real loop as h*H+r ms (H around 2^31..2^34, "
+        "30 days); all instants stay within 1000 of a multiple of M, so the relabelling preserves sums and order and the unchanged "
+        "trace specification decides the relabelled execution",
     ]
     ctx.uncovered = ["timing against the real monotonic clock and real sleeping in epoll_wait/select (decided under the virtual "
                      "clock only; the computed poll timeout is checked against the nearest deadline instead)",
